@@ -207,7 +207,13 @@ func runHistory(c *core.Ctx, api int, h []int) (*streamRun, bool) {
 // runHistoryEnv: with eofAtEnd the reader returns io.EOF together with the last bytes of the stream (in the
 // Read call that delivers them), which only the last operation of the history can observe.
 func runHistoryEnv(c *core.Ctx, api int, h []int, eofAtEnd bool) (*streamRun, bool) {
+	return runHistoryReader(c, api, h, eofAtEnd, 0)
+}
+
+// runHistoryReader: maxChunk > 0 makes every Read call of the stream's reader return at most that many bytes.
+func runHistoryReader(c *core.Ctx, api int, h []int, eofAtEnd bool, maxChunk int) (*streamRun, bool) {
 	r := newStreamRun(api)
+	r.rd.MaxChunk = maxChunk
 	for i, op := range h {
 		r.rd.EOFWithData = eofAtEnd && i == len(h)-1 && op == opRead
 		if st, k, m := r.step(op); st != "" {
@@ -317,6 +323,11 @@ func init() {
 								}
 								if _, ok := runHistoryEnv(c, api, h, true); ok {
 									c.Outcome("ok-long-eof-with-last-bytes")
+								}
+								for _, chunk := range []int{1, 3} {
+									if _, ok := runHistoryReader(c, api, h, false, chunk); ok {
+										c.Outcome("ok-long-short-reads")
+									}
 								}
 							}
 						}
